@@ -92,6 +92,7 @@ fn generate(rng: &mut Rng) -> C16Sc {
             }
         };
         spec.close_on_end_ns = None;
+        spec.coalesce = rng.chance(1, 2);
         clients.push(NetClient { connect_at_ns: ms(rng.range(0, 5000)), peer: peer.to_string(), spec, wplan });
         kinds.push(kind.to_string());
     }
@@ -101,6 +102,7 @@ fn generate(rng: &mut Rng) -> C16Sc {
     let vint = if rng.chance(1, 3) { 2 } else { 1 };
     let mut vspec = ClientSpec::base(rng, vint);
     with_header(rng, &mut vspec, proxy, &vsrc);
+    vspec.coalesce = rng.chance(1, 2);
     clients.push(NetClient { connect_at_ns: ms(rng.range(0, 8000)), peer: vpeer.to_string(), spec: vspec, wplan: vec![] });
     clients.sort_by_key(|c| c.connect_at_ns);
     // keep the victim last in the list for the oracle (stable: move it)
